@@ -37,13 +37,16 @@ CHECKS = {
  "C06": dict(
   text="Coq theorems, Closed under the global context, for every state: an acknowledgement (PUBACK/PUBREC/PUBCOMP) that matches nothing in flight "
        "is handled exactly as a protocol error, whose outcome erases no stored packet and frees no identifier; on v3.1.1 an accepted QoS>0 "
-       "PUBLISH is requested for sending or is in the store. PARTIAL (C06_partial): the history clauses (stored until exactly the matching "
-       "acknowledgement; retransmission right after CONNACK in store order with DUP, full topic, same ids; emptied when the session is not "
-       "present; v5.0 accepted-implies-sent-or-stored) are decided by the monitor mon_c06 (ghost store from operations/events vs exported store "
-       "and in-flight sets) and the correspondence, not yet by theorems.",
+       "PUBLISH is requested for sending or is in the store; OVER ALL HISTORIES, both versions (C06_stored_until_released, by a walk through every "
+       "function of the model): an identifier's store entry survives every call that is not a release point (matching acknowledgement, "
+       "erase, oversize drop on resume, end of session, reuse of the id by a new PUBLISH), across persistent closes and resumes; on resume the "
+       "call that processes/sends the CONNACK requests exactly the stored packets that fit, in store order, and nothing else; without Session "
+       "Present the store is emptied. PARTIAL (C06_partial): that the identifier stays HELD over histories and the v5.0 accepted-implies-"
+       "sent-or-stored clause are decided by the monitor mon_c06 (ghost store from operations/events vs exported store and in-flight sets) "
+       "and the correspondence.",
   ref="DESIGN.md §3 C06",
   note=CONN_NOTE,
-  technique="Coq per-step proofs + ghost-store monitor + differential correspondence"),
+  technique="Coq per-step and history-invariant proofs + ghost-store monitor + differential correspondence"),
  "C07": dict(
   text="Coq theorems, Closed under the global context, for every state: on v3.1.1 a QoS 2 PUBLISH whose id is in the handled set is not notified "
        "and stays handled; on both versions a PUBREL removes the id from the handled set so the next PUBLISH is a new message; automatically "
